@@ -316,6 +316,51 @@ pub fn continue_after_fatal(sv: &Value, max: &Value, inputs: &Value, k: usize) -
     }
 }
 
+/// A state that came out of a completed run is given MORE code (pushed onto its exec stack) and run
+/// again, compared with a freshly built state that has the same stacks, limits, inputs and code:
+/// the step limit bounds each evaluation, it is not a budget the state uses up.
+pub fn continue_with_more_code(sv: &Value, max: &Value, inputs: &Value, k: usize) -> Option<String> {
+    let r = guarded(|| -> Option<String> {
+        let state = build_state(sv, max, inputs, k).expect("initial state");
+        let Ok(mut done) = state.run_to_completion() else { return None };
+        let before = read_output(&mut done);
+        let mut proj = stacks_to_json(&done)?;
+        let maxes = maxes_to_json(&done);
+        let room = maxes["exec"].as_u64()? as usize - arr(&proj["exec"]).len();
+        let extra: Vec<Value> = [json!({"f": "exec", "o": "noop"}), json!({"f": "int", "o": "stack_depth"}), json!({"f": "exec", "o": "noop"}),
+                                 json!({"f": "bool", "o": "stack_depth"}), json!({"f": "exec", "o": "noop"})].into_iter().take(room.min(k.max(1))).collect();
+        if extra.is_empty() {
+            return None;
+        }
+        {
+            use push::push_vm::HasStack;
+            done.stack_mut::<PushProgram>().push_many(extra.iter().map(item_from_json).collect::<Vec<_>>()).ok()?;
+        }
+        let mut exec = extra.clone();
+        exec.extend(arr(&proj["exec"]).iter().cloned());
+        proj["exec"] = Value::Array(exec);
+        let fresh = build_state(&proj, &maxes, inputs, k).ok()?;
+        fn show<E: std::fmt::Debug + IntoState<PushState>>(r: Result<PushState, E>, skip: &str) -> String {
+            match r {
+                Ok(mut st) => { let t = read_output(&mut st); format!("ok {:?} {:?}", stacks_to_json(&st).map(|v| v.to_string()), t.strip_prefix(skip).map(str::to_string)) }
+                Err(fe) => {
+                    let e = fatal_err_json(&format!("{fe:?}"));
+                    let mut st = fe.into_state();
+                    let t = read_output(&mut st);
+                    format!("fatal {e} {:?} {:?}", stacks_to_json(&st).map(|v| v.to_string()), t.strip_prefix(skip).map(str::to_string))
+                }
+            }
+        }
+        let continued = show(done.run_to_completion(), &before);
+        let rebuilt = show(fresh.run_to_completion(), "");
+        (continued != rebuilt).then(|| format!("a finished state given more code and run again: {continued}; the same state built afresh: {rebuilt}"))
+    });
+    match r {
+        Ok(x) => x,
+        Err(m) => Some(format!("panic while running a finished state again with more code: {m}")),
+    }
+}
+
 /// Observations of the real interpreter after 0, 1, ..., n steps (runs under step limits
 /// 0..=n from fresh copies of the initial state).  Element k: (status, stacks, tokens printed
 /// by step k, err).  Stops after a fatal/panic, or at the first state that is outside the
@@ -362,6 +407,11 @@ pub fn observe_steps(sv: &Value, max: &Value, inputs: &Value, n: usize) -> StepS
                                   o.stacks.as_ref().map(ToString::to_string), o.text),
                     err: json!({"kind": "panic", "stack": "none"}),
                 };
+            }
+        }
+        if o.status == "ok" && k % 4 == 3 {
+            if let Some(diff) = continue_with_more_code(sv, max, inputs, k) {
+                o = RunObs { status: "panic", stacks: None, text: diff, err: json!({"kind": "panic", "stack": "none"}) };
             }
         }
         if o.status == "fatal" {
